@@ -63,6 +63,19 @@ inline cudaError_t cudaDeviceSynchronize() { return cudaSuccess; }
 inline cudaError_t cudaGetLastError() { return cudaSuccess; }
 inline const char *cudaGetErrorName(cudaError_t) { return "cudaSuccess"; }
 
+inline cudaError_t cudaMallocHost(void **p, size_t n) { *p = malloc(n ? n : 1); return cudaSuccess; }
+inline cudaError_t cudaFreeHost(void *p) { free(p); return cudaSuccess; }
+inline cudaError_t cudaStreamCreate(cudaStream_t *s) { *s = malloc(1); return cudaSuccess; }
+inline cudaError_t cudaStreamDestroy(cudaStream_t s) { free(s); return cudaSuccess; }
+typedef void *cusparseHandle_t;
+typedef void *cusolverSpHandle_t;
+inline int cusparseCreate(cusparseHandle_t *h) { *h = malloc(1); return 0; }
+inline int cusparseSetStream(cusparseHandle_t, cudaStream_t) { return 0; }
+inline int cusparseDestroy(cusparseHandle_t h) { free(h); return 0; }
+inline int cusolverSpCreate(cusolverSpHandle_t *h) { *h = malloc(1); return 0; }
+inline int cusolverSpSetStream(cusolverSpHandle_t, cudaStream_t) { return 0; }
+inline int cusolverSpDestroy(cusolverSpHandle_t h) { free(h); return 0; }
+
 // ---------------------------------------------------------------- execution policy + CUDA N_Vector
 struct VtExecPolicy {
     size_t block = 1;
@@ -72,6 +85,12 @@ struct VtExecPolicy {
     size_t blockSize() { return block; }
     size_t gridSize(size_t n) { return grid ? grid : (n + block - 1) / block; }
 };
+struct SUNCudaThreadDirectExecPolicy : VtExecPolicy {
+    SUNCudaThreadDirectExecPolicy(size_t blockDim_, cudaStream_t s = nullptr) { block = blockDim_ ? blockDim_ : 1; grid = 0; stream_ = s; }
+};
+struct SUNCudaBlockReduceExecPolicy : VtExecPolicy {
+    SUNCudaBlockReduceExecPolicy(size_t blockDim_, size_t gridDim_ = 0, cudaStream_t s = nullptr) { block = blockDim_ ? blockDim_ : 1; grid = gridDim_; stream_ = s; }
+};
 struct _vt_NVectorContent_Cuda { VtExecPolicy *stream_exec_policy; };
 typedef _vt_NVectorContent_Cuda *N_VectorContent_Cuda;
 inline N_Vector vt_nvector_cuda(sunindextype n, VtExecPolicy *pol) {
@@ -80,6 +99,16 @@ inline N_Vector vt_nvector_cuda(sunindextype n, VtExecPolicy *pol) {
     return v;
 }
 inline void vt_nvector_cuda_destroy(N_Vector v) { delete (N_VectorContent_Cuda)v->content; N_VDestroy(v); }
+inline N_Vector N_VNew_Cuda(sunindextype n, SUNContext) { static VtExecPolicy dflt; return vt_nvector_cuda(n, &dflt); }
+inline N_Vector N_VNewEmpty_Cuda(SUNContext) { N_Vector v = new _vt_NVector{nullptr, 0, false}; static VtExecPolicy dflt; v->content = new _vt_NVectorContent_Cuda{&dflt}; return v; }
+inline int N_VSetKernelExecPolicy_Cuda(N_Vector v, VtExecPolicy *stream_policy, VtExecPolicy *) {
+    if (!v->content) v->content = new _vt_NVectorContent_Cuda{stream_policy};
+    ((N_VectorContent_Cuda)v->content)->stream_exec_policy = stream_policy;
+    return 0;
+}
+inline void N_VSetHostArrayPointer_Cuda(realtype *h, N_Vector v) { if (v->own) free(v->data); v->data = h; v->own = false; }  // host == device here
+inline void N_VCopyToDevice_Cuda(N_Vector) {}
+inline void N_VCopyFromDevice_Cuda(N_Vector) {}
 inline realtype *N_VGetDeviceArrayPointer_Cuda(N_Vector v) { return v->data; }
 inline realtype *N_VGetHostArrayPointer_Cuda(N_Vector v) { return v->data; }
 inline void N_VSpace_Cuda(N_Vector v, sunindextype *lrw, sunindextype *liw) { *lrw = v->length; *liw = 2; }
@@ -97,6 +126,10 @@ inline SUNMatrix vt_cusparse_blockcsr(int nblocks, sunindextype M, sunindextype 
     for (sunindextype i = 0; i < M + 1; i++) A->indexptrs[i] = -1;
     return A;
 }
+inline SUNMatrix SUNMatrix_cuSparse_NewBlockCSR(int nblocks, sunindextype M, sunindextype N, sunindextype blocknnz, cusparseHandle_t, SUNContext) { return vt_cusparse_blockcsr(nblocks, M, N, blocknnz); }
+inline int SUNMatrix_cuSparse_SetFixedPattern(SUNMatrix, booleantype) { return 0; }
+inline SUNLinearSolver SUNLinSol_cuSolverSp_batchQR(N_Vector, SUNMatrix, cusolverSpHandle_t, SUNContext) { return new _vt_SUNLinearSolver{2}; }
+inline void SUNLinSol_cuSolverSp_batchQR_GetDeviceSpace(SUNLinearSolver, size_t *a, size_t *b) { *a = 0; *b = 0; }
 inline realtype *SUNMatrix_cuSparse_Data(SUNMatrix A) { return A->data; }
 inline int SUNMatrix_cuSparse_NumBlocks(SUNMatrix A) { return A->nblocks; }
 inline int SUNMatrix_cuSparse_BlockNNZ(SUNMatrix A) { return (int)A->blocknnz; }
